@@ -41,6 +41,9 @@ def main():
                 print(out[-1500:])
     finally:
         subprocess.run(["git", "-C", "/repo", "checkout", "--", "."], check=True)
+        # rebuild from the restored tree so that a later `--no-build` run does not use binaries of the changed tree
+        for pid in ids:
+            subprocess.run(["/verif/check", pid, "--build-only"], capture_output=True, cwd="/verif")
     rp = os.path.join(d, "result.json")
     old = json.load(open(rp)) if os.path.exists(rp) else {}
     old.update(results)
